@@ -731,6 +731,11 @@ def hash_fresh(p, model):
                     pol = c[2] if op == 'Ge' else not c[2]
                 elif selffield(a) == 'freshv' and hir.same_expr(b, at) and op in ('Le', 'Gt'):
                     pol = c[2] if op == 'Le' else not c[2]
+        strict = any(c[0] == 'cond' and peel(c[1]).get('k') == 'Binary' and ((peel(c[1])['op'] == 'Gt' and hir.same_expr(peel(c[1])['l'], at) and selffield(peel(c[1])['r']) == 'freshv') or
+                                                                               (peel(c[1])['op'] == 'Lt' and hir.same_expr(peel(c[1])['r'], at) and selffield(peel(c[1])['l']) == 'freshv')) for c in p.conds)
+        if strict and pol is None:
+            msgs.append('freshv is advanced only when `%s` > freshv: inserting the name freshv itself leaves freshv unchanged, so the next add_vertex hands out the same name and overwrites the vertex' % _t(at))
+            continue
         mx = [b for b in bumps if b.kind == 'fresh=' and _is_max_form(b.a['value'], at)]
         if mx:
             continue
@@ -1014,6 +1019,8 @@ def presence_on_err(facts, be):
                     # v < len and v not among the holes
                     if ((e['name'] == 'is_none' and c[2]) or (e['name'] == 'is_some' and not c[2])) and _cond_lt_len(p.conds, model.posof[l[1]]) is True:
                         present = True
+                if e['name'] == 'contains' and selffield(r) == 'holes' and is_v(e['args'][0]) and not c[2] and _cond_lt_len(p.conds, peel(e['args'][0])) is True:
+                    present = True      # v < len and v is not a hole
                 if e['name'] in ('is_some', 'is_none') and r.get('k') == 'Index' and selffield(r['e']) == 'vdata' and is_v(r['i']):
                     if (e['name'] == 'is_some') == bool(c[2]) and _cond_lt_len(p.conds, peel(r['i'])) is True:
                         present = True
@@ -1466,6 +1473,56 @@ def which_field(f, field_names):
     return got
 
 
+def scalar_factor_paths(f):
+    """mul_scalar_factor(e, s): [(branch, [effects])] with branch in found / absent / any and effects in mul(s) / overwrite / insert(e,s) / insert(?)"""
+    ps = [p['id'] for p in f['params'] if p.get('k') == 'Bind' and p['name'] != 'self']
+
+    def is_ev(n):
+        k = n.get('k')
+        if k == 'AssignOp' or (k == 'Assign' and peel(n['l']) is not n['l']):
+            return True
+        return k == 'MethodCall' and n['name'] in ('insert', 'or_insert', 'or_insert_with', 'and_modify', 'remove', 'clear') and any(selffield(x) == 'scalar_factors' for x in hir.nodes(n['recv']) if x.get('k') == 'Field')
+    out = []
+    for p in paths.effect_paths(hir.stmts_of(f['hir']), is_ev):
+        if p.end == 'diverge':
+            continue
+        branch = 'any'
+        for c in p.conds:
+            if c[0] in ('pat', 'nopat'):
+                init = c[2]
+                if any(x.get('k') == 'MethodCall' and x['name'] in ('get_mut', 'get') and selffield(x['recv']) == 'scalar_factors' for x in hir.nodes(init)):
+                    branch = 'found' if c[0] == 'pat' and (hir.pat_ctor(c[1]) or '').endswith('Some') else 'absent'
+            if c[0] == 'cond':
+                e = peel(c[1])
+                if e.get('k') == 'MethodCall' and e['name'] == 'contains_key' and selffield(e['recv']) == 'scalar_factors':
+                    branch = 'found' if c[2] else 'absent'
+        effs = []
+        for n in p.events:
+            if isinstance(n, tuple):
+                effs.append('loop')
+                continue
+            k = n.get('k')
+            if k == 'AssignOp':
+                r = hir.local(peel(n['r']))
+                effs.append('mul(s)' if n['op'] == 'MulAssign' and r and len(ps) == 2 and r[1] == ps[1] else '%s(?)' % n['op'])
+            elif k == 'Assign':
+                effs.append('overwrite')
+            else:
+                a = [hir.local(peel(x)) for x in n['args']]
+                if n['name'] == 'insert' and len(a) == 2 and all(a) and len(ps) == 2 and a[0][1] == ps[0] and a[1][1] == ps[1]:
+                    effs.append('insert(e,s)')
+                else:
+                    effs.append('%s(?)' % n['name'])
+        out.append((branch, effs))
+    return out
+
+
+def scalar_factor_rule(f):
+    got = sorted(set((b, tuple(e)) for b, e in scalar_factor_paths(f)))
+    want = [('absent', ('insert(e,s)',)), ('found', ('mul(s)',))]
+    return got == want, got
+
+
 FIELD_ACCESSORS = {'inputs': 'inputs', 'inputs_mut': 'inputs', 'set_inputs': 'inputs', 'outputs': 'outputs', 'outputs_mut': 'outputs', 'set_outputs': 'outputs',
                    'scalar': 'scalar', 'scalar_mut': 'scalar', 'scalar_factors': 'scalar_factors', 'get_scalar_factor': 'scalar_factors', 'mul_scalar_factor': 'scalar_factors',
                    'num_vertices': 'numv', 'num_edges': 'nume'}
@@ -1604,6 +1661,11 @@ def run(ck):
             got = which_field(f, names | set(REPR[be]))
             n_acc += 1
             ck.ob('R-TABLE-accessor', '%s::%s' % (be.split('::')[0], m), got == {fld}, ck.site(mkey(be, m)), '`%s` touches field(s) {%s}, expected only `%s`' % (m, ', '.join(sorted(got)), fld))
+    for be in (VEC, HASH):
+        f = ck.fn(mkey(be, 'mul_scalar_factor'))
+        ok, got = scalar_factor_rule(f)
+        ck.ob('R-SIB-scalar', '%s::mul_scalar_factor' % be.split('::')[0], ok, ck.site(mkey(be, 'mul_scalar_factor')),
+              'mul_scalar_factor must multiply the stored factor by s when the expression already has one and insert (e, s) otherwise; it does %s — the back ends then answer get_scalar_factor differently' % (got,), sample={'paths': [list(x) for x in got]})
     ck.floor('R-TABLE-accessor', n_acc, 40)
     ck.note('methods analysed: %d, non-diverging paths: %d, mutating methods: %d, direct slot writes proved in bounds: %d' % (stats['methods'], stats['paths'], stats['mutators'], stats['index_proved']))
     controls(ck)
@@ -1645,5 +1707,6 @@ def controls(ck):
     ck.control('R-TABLE-accessor flags set_row writing qubit', acc.get(GL + '::set_row') is False)
     f = fx['fns'][mkey(HASH, 'outputs_mut')]
     ck.control('R-TABLE-accessor flags outputs_mut returning inputs', which_field(f, {'inputs', 'outputs'}) != {'outputs'})
+    ck.control('R-SIB-scalar flags an overwriting mul_scalar_factor', scalar_factor_rule(fx['fns'][mkey(HASH, 'mul_scalar_factor')])[0] is False)
     a, b = neutral_summary(fx, VEC, 'add_vertex_with_data'), neutral_summary(fx, HASH, 'add_vertex_with_data')
     ck.control('R-SIB-events flags differing neutral events', a != b)
